@@ -283,6 +283,84 @@ def gen_bp(rng, pools, tps=None, maxitems=None, hints=None, rich=False, coll=Non
     return bp
 
 
+def histgen_text1(pools):
+    """a non-empty text in the representation the pools use"""
+    for _ in range(50):
+        t = pools.text()
+        if len(t) > 0:
+            return t[:1]
+    raise RuntimeError("no non-empty text")
+
+
+def bp_neighbours(rng, pools, bp):
+    """Parameter sets that differ from `bp` in exactly ONE member (another value, or present / absent): two files whose
+    sets are such neighbours hold different parameters, however similar - whatever compares or shares parameter sets
+    must see every member."""
+    import copy
+    out = []
+
+    def other(v, bits):
+        w = nat(bounded(rng, bits))
+        return w if w != v else nat((1 << (bits - 1)) - 3)
+
+    for f, bits in (("qrh", 18), ("sigh", 17), ("rrh", 2), ("odh", 2)):
+        n = copy.deepcopy(bp)
+        v = 0
+        for b in bp[f]:
+            v = (v << 8) | b
+        n[f] = nat(v ^ (1 << rng.randrange(bits)))
+        out.append((f, n))
+    n = copy.deepcopy(bp); n["max"] = other(bp["max"], 16) or nat(5); out.append(("max", n))
+    for f in ("opcodes", "rr_types"):
+        n = copy.deepcopy(bp); n[f] = bp[f][:-1] if bp[f] else [nat(3)]; out.append((f + "-shorter", n))
+        n = copy.deepcopy(bp); n[f] = bp[f] + [nat(200)]; out.append((f + "-longer", n))
+        if len(bp[f]) >= 2:
+            n = copy.deepcopy(bp); n[f] = [bp[f][1], bp[f][0]] + bp[f][2:]; out.append((f + "-order", n))
+    for f in ("storage_flags", "client_address_prefix_ipv4", "client_address_prefix_ipv6", "server_address_prefix_ipv4",
+              "server_address_prefix_ipv6"):
+        n = copy.deepcopy(bp)
+        if f in bp:
+            n[f] = other(bp[f], 8); out.append((f, n))
+            n = copy.deepcopy(bp); del n[f]; out.append((f + "-absent", n))
+        else:
+            n[f] = nat(rng.choice([0, 24, 64])); out.append((f + "-present", n))
+    for f in ("sampling_method", "anonymization_method"):
+        n = copy.deepcopy(bp)
+        if f in bp:
+            n[f] = bp[f] + bp[f] + histgen_text1(pools); out.append((f, n))
+            n = copy.deepcopy(bp); del n[f]; out.append((f + "-absent", n))
+        else:
+            n[f] = pools.text()[:0]; out.append((f + "-present-empty", n))
+    if "coll" in bp:
+        n = copy.deepcopy(bp); del n["coll"]; out.append(("coll-absent", n))
+        for f in ["query_timeout", "skew_timeout", "snaplen", "promisc", "interfaces", "server_address", "vlan_ids", "filter",
+                  "generator_id", "host_id"]:
+            n = copy.deepcopy(bp)
+            c = n["coll"]
+            if f not in c:
+                c[f] = (nat(7) if f in ("query_timeout", "skew_timeout", "snaplen") else True if f == "promisc"
+                        else [] if f in ("interfaces", "server_address", "vlan_ids") else pools.text()[:0])
+                out.append(("coll." + f + "-present", n))
+                continue
+            if f in ("query_timeout", "skew_timeout", "snaplen"):
+                c[f] = other(c[f], 32)
+            elif f == "promisc":
+                c[f] = not c[f]
+            elif f == "interfaces":
+                c[f] = c[f] + [pools.text()]
+            elif f == "server_address":
+                c[f] = c[f] + [pools.ip()]
+            elif f == "vlan_ids":
+                c[f] = c[f] + [nat(9)]
+            else:
+                c[f] = c[f] + histgen_text1(pools)
+            out.append(("coll." + f, n))
+            n = copy.deepcopy(bp); del n["coll"][f]; out.append(("coll." + f + "-absent", n))
+    else:
+        n = copy.deepcopy(bp); n["coll"] = {}; out.append(("coll-present-empty", n))
+    return out
+
+
 def gen_hints(rng, mode=None):
     mode = mode or rng.choice(["all", "all", "all", "random", "dropone", "onlyone", "none", "sections"])
     qrh, sigh, rrh, odh = ALL_QRH, ALL_SIGH, 3, 3
@@ -581,5 +659,8 @@ def add_external_block_ops(rng, h, p=0.35):
                 ops.append({"op": "xclear"})
             if ops[-1]["op"] in ("xqr", "xaec", "xmm") and rng.random() < 0.3:
                 ops[-1]["stats"] = gen_stats(rng)
+            if rng.random() < 0.15:
+                # the kept block is moved / copied to another object, which takes its place
+                ops.append({"op": "xmove", "how": rng.choice(["mctor", "cctor", "massign", "cassign", "vector"])})
     h["ops"] = ops
     return respect_header(h)
